@@ -389,6 +389,18 @@ class ApiGen:
                         qis.append(A.QualifiedImport(r.choice(["os.path", "typing.Any", "numpy"]), None))
                 im = A.Module(id_=sp, name="__init__", qualified_imports=qis, wildcard_imports=wis)
                 inits.append(im)
+        # one declaration re-exported by a deep package whose id sorts BEFORE that of a shallower re-exporting package
+        # (the analyser keeps reexported_by sorted by id: [pkg/aa/bb, pkg/zz])
+        if r.random() < 0.25:
+            cands = [(tm, d) for tm in modules for d in [c.name for c in tm.classes if c.is_public] + [f.name for f in tm.global_functions if f.is_public]
+                     if tm.id.count("/") >= 2]
+            have = {im.id for im in inits}
+            if cands and not ({"pkg/aa/bb", "pkg/zz"} & have):
+                tm, d = r.choice(cands)
+                for pid in ("pkg/aa/bb", "pkg/zz"):
+                    inits.append(A.Module(id_=pid, name="__init__", qualified_imports=[A.QualifiedImport(f"{tm.id.replace('/', '.')}.{d}", None)],
+                                          wildcard_imports=[]))
+                self.feat("reexport_depth_inversion")
         for im in inits:
             for qi in im.qualified_imports:
                 api.reexport_map[qi.qualified_name].add(im)
